@@ -124,12 +124,17 @@ sync_properties = Contract(
     "doctrans.sync_properties:sync_properties",
     properties=["C14", "C20"],
     note="1..3 input/output pairs; sync_property, the parser and emit.file are opaque and logged",
-    cases=[_sp_case(1), _sp_case(2), _sp_case(3)],
+    cases=[_sp_case(1), _sp_case(2), _sp_case(3),
+           Case("same-input-twice", {"input_eval": "bool", "input_filename": "str", "input_params": ("list", [("lit", "alpha"), ("lit", "alpha")]), "output_filename": "str",
+                                     "output_params": ("list", [("lit", "gamma"), ("lit", "Out.kind")]), "output_param_wrap": None})],
     ensures=[
         Clause("SP-one-write", "log_effects == ('emit.file',) and log_order[-1] == 'emit.file'", note="C14.D1: exactly one write, after every pair has been applied"),
         Clause("SP-target", "log_emit_file_args[0][1] == output_filename and log_emit_file_kwargs[0]['mode'] == 'wt'", note="the write goes to the output file"),
         Clause("SP-reads-only", "all(a[1] == 'rt' for a in log_open_args)", note="both files are opened for reading only (the input file is never written)"),
         Clause("SP-every-pair", "log_sync_property_n == len(input_params)", note="every input/output pair is applied"),
+        Clause("SP-pairs-in-order", "log_sync_property_n == 2 and log_sync_property_args[0][1] == 'alpha' and log_sync_property_args[0][4] == 'gamma' "
+                                    "and log_sync_property_args[1][1] == 'alpha' and log_sync_property_args[1][4] == 'Out.kind'", when=["same-input-twice"],
+               note="C14: an input address that serves two outputs is applied to both, in the order given (seed C14-6 folds the pairs through a dict)"),
         Clause("SP-chained", "log_emit_file_args[0][0] is log_sync_property_results[-1]", note="what is written is the result of the last replacement"),
     ],
     raises={"AssertionError": "False"},
@@ -258,13 +263,14 @@ sync_property = Contract(
                               "and log_to_code_args[0][0] is g_ann", when=["wrap=opt"],
                note="C14: with a wrap template the copied annotation is ALWAYS the template applied to the input's annotation - whatever that annotation looks like"),
         Clause("SY-wrap-union", "g_ann is None or log_ast_parse_n == 1 and log_ast_parse_args[0][0] == 'Optional[Union[' + log_to_code_results[0] + ', str]]'", when=["wrap=union"]),
-        Clause("SY-annotation-set", "g_ann is None or (log_setattr_n == 1 and log_setattr_args[0][0] is log_find_in_ast_results[0] and "
+        Clause("SY-annotation-set", "g_ann is None or (log_setattr_n == 1 and log_setattr_args[0][0] is g_rep and "
                                     "log_setattr_args[0][1] == 'annotation' and log_setattr_args[0][2] is log_ast_parse_results[0].body[0].value)",
                when=["wrap=opt", "wrap=union"], note="the parsed, wrapped expression becomes the annotation of the node that is copied"),
         Clause("SY-nowrap", "log_ast_parse_n == 0 and log_to_code_n == 0", when=["wrap=None"], note="without a template the node is copied as it is"),
-        Clause("SY-replacement", "log_RewriteAtQuery_kwargs[0]['replacement_node'] is log_find_in_ast_results[0]", note="what is written into the output is the node found in the input"),
+        Clause("SY-replacement", "log_RewriteAtQuery_kwargs[0]['replacement_node'] is g_rep and g_rep is deepcopy(log_find_in_ast_results[0])",
+               note="what is written into the output is a copy of the node found in the input (since 94e721b: the input's own node is neither wrapped in place nor shared between two outputs)"),
     ],
-    ghosts={"assert replacement_node is not None": [("g_ann", "replacement_node.annotation")]},
+    ghosts={"assert replacement_node is not None": [("g_ann", "replacement_node.annotation"), ("g_rep", "replacement_node")]},
     raises={"AssertionError": True, "NotImplementedError": True},
     canaries=["log_ast_parse_n == 0"],
 )
